@@ -55,6 +55,12 @@ class Type:
     def __hash__(self):
         return hash((self._type, self.user_type_name))
 
+    @property
+    def is_unknown(self):
+        # an unknown type is not equal to anything, not even to
+        # Type.UNKNOWN: this is the way to test for it
+        return self._type == BuiltinType.UNKNOWN
+
     def __repr__(self):
         if self._type == BuiltinType.UNKNOWN:
             s = 'Type.UNKNOWN'
@@ -638,7 +644,7 @@ class BinaryOp(Expr):
         ltype = self.left.type
         rtype = self.right.type
 
-        if ltype == Type.UNKNOWN or rtype == Type.UNKNOWN:
+        if ltype.is_unknown or rtype.is_unknown:
             return Type.UNKNOWN
 
         if self.op.is_logical:
@@ -670,7 +676,7 @@ class BinaryOp(Expr):
             else:
                 return Type.LONG
 
-        if ltype == Type.UNKNOWN or rtype == Type.UNKNOWN:
+        if ltype.is_unknown or rtype.is_unknown:
             return Type.UNKNOWN
         if ltype.is_user_defined or rtype.is_user_defined:
             return Type.UNKNOWN
@@ -832,7 +838,7 @@ class UnaryOp(Expr):
         # evaluate the operand's type once: a chain of unary
         # operators would otherwise take exponential time
         arg_type = self.arg.type
-        if arg_type == Type.UNKNOWN:
+        if arg_type.is_unknown:
             return Type.UNKNOWN
 
         if self.op.is_logical:
